@@ -22,7 +22,7 @@ RULE = ('descriptor = seeded batch of scenarios; scenario = 1..8 distinct regist
         'header of those ports dispatched after every step.')
 ASSUMPTIONS = ['matching rule: (header port & port mask) == registered port and (header channel & channel mask) == '
                'registered channel']
-REQUIRED = ['mon.packets_without_payload', 'mon.removals_of_absent_registrations', 'mon.packets', 'mon.must_deliveries', 'mon.mutations_executed', 'mon.raising_callbacks',
+REQUIRED = ['mon.scenarios_with_a_second_dispatcher_in_the_process', 'mon.packets_without_payload', 'mon.removals_of_absent_registrations', 'mon.packets', 'mon.must_deliveries', 'mon.mutations_executed', 'mon.raising_callbacks',
             'mon.caller_calls', 'mon.self_removals', 'mon.shared_callback_removals',
             'mon.shared_callback_multi_pattern_deliveries', 'mon.deliveries_through_the_public_wrappers']
 
@@ -94,6 +94,9 @@ def gen_regs(rnd, n):
     return regs
 
 
+_STOP = {'leak': False}
+
+
 def run_scenario(ctx, regs, script, raising, headers, label):
     """script: list of (actor reg index, nth invocation, op, arg)."""
     from cflib.crazyflie import _IncomingPacketHandler
@@ -108,6 +111,13 @@ def run_scenario(ctx, regs, script, raising, headers, label):
     link = _Link(packets)
     cf = _Cf(link, Caller)
     handler = _IncomingPacketHandler(cf)
+    # a second Crazyflie object of the same process (a swarm member) has a dispatcher of its own with a catch-all
+    # registration: what is received on this link is none of its business
+    other_calls = []
+    other = _IncomingPacketHandler(_Cf(_Link([]), Caller))
+    other.add_header_callback(lambda pk_: other_calls.append(getattr(pk_, '_uid', None)), 0, 0, 0x00, 0x00)
+    if _STOP['leak']:
+        return
     log = []          # (uid, reg id)
     allpk = []
     cf.packet_received.add_callback(lambda pk: allpk.append(pk._uid))
@@ -305,6 +315,11 @@ def run_scenario(ctx, regs, script, raising, headers, label):
         last[rid] = uid
     if allpk != list(range(len(packets))):
         ctx.violate('dispatch:packet_received-sequence-wrong', {'label': label, 'got': allpk[:20]})
+    ctx.count('mon.scenarios_with_a_second_dispatcher_in_the_process')
+    if other_calls:
+        ctx.violate('dispatch:packet-delivered-to-a-registration-of-another-crazyflie-object',
+                    {'label': label, 'packets_seen_by_the_other_object': len(other_calls)})
+        _STOP['leak'] = True        # (every later scenario of this worker would only repeat it, ever more slowly)
     ctx.count('mon.mutations_executed', state['mut'])
     ctx.count('mon.self_removals', state['selfrem'])
     ctx.count('mon.removals_of_absent_registrations', state.get('absent_removals', 0))
